@@ -486,10 +486,18 @@ def fold_flag_tests(fn: ast.AST) -> int:
                 f2 = facts + [(t, pol)]
                 if not br:
                     yield None, f2  # empty else: falls through without assignment
-                elif isinstance(br[-1], ast.If):
+                elif isinstance(br[-1], (ast.If, ast.Try)):
                     yield from leaf_blocks(br[-1], f2)
                 else:
                     yield br, f2
+        elif isinstance(st, ast.Try) and not st.finalbody:
+            for br in [h.body for h in st.handlers] + [st.orelse or st.body]:
+                if not br:
+                    yield None, facts
+                elif isinstance(br[-1], (ast.If, ast.Try)):
+                    yield from leaf_blocks(br[-1], facts)
+                else:
+                    yield br, facts
 
     def decide(test: ast.AST, v: str, last: Optional[ast.stmt],
                facts: List[Tuple[str, bool]]) -> Optional[bool]:
@@ -503,7 +511,16 @@ def fold_flag_tests(fn: ast.AST) -> int:
         while isinstance(t, ast.UnaryOp) and isinstance(t.op, ast.Not):
             t, neg = t.operand, not neg
         res: Optional[bool] = None
-        if isinstance(val, ast.Constant):
+        is_ctor = isinstance(val, ast.Call) and isinstance(val.func, ast.Name) and \
+            val.func.id.lstrip("_")[:1].isupper()
+        if (is_ctor or isinstance(val, (ast.JoinedStr, ast.List, ast.Tuple, ast.Dict, ast.Set,
+                                        ast.ListComp, ast.DictComp, ast.SetComp))) and \
+                isinstance(t, ast.Compare) and \
+                len(t.ops) == 1 and isinstance(t.left, ast.Name) and t.left.id == v and \
+                isinstance(t.comparators[0], ast.Constant) and t.comparators[0].value is None \
+                and isinstance(t.ops[0], (ast.Is, ast.IsNot)):
+            res = isinstance(t.ops[0], ast.IsNot)  # such a value is never None
+        elif isinstance(val, ast.Constant):
             if isinstance(t, ast.Name) and t.id == v:
                 res = bool(val.value)
             elif isinstance(t, ast.Compare) and len(t.ops) == 1 and isinstance(
@@ -528,7 +545,7 @@ def fold_flag_tests(fn: ast.AST) -> int:
         i = 0
         while i + 1 < len(block):
             a, b = block[i], block[i + 1]
-            if not (isinstance(a, ast.If) and isinstance(b, ast.If)):
+            if not (isinstance(a, (ast.If, ast.Try)) and isinstance(b, ast.If)):
                 i += 1
                 continue
             names = {x.id for x in ast.walk(b.test) if isinstance(x, ast.Name)}
@@ -541,9 +558,7 @@ def fold_flag_tests(fn: ast.AST) -> int:
                 i += 1
                 continue
             decisions = [decide(b.test, v, lb[-1] if lb else None, f_) for lb, f_ in leaves]
-            if not any(d is not None for d in decisions) or not any(
-                    isinstance(lb[-1], ast.Assign) and isinstance(lb[-1].value, ast.Constant)
-                    for lb, _f in leaves if lb):
+            if not any(d is not None for d in decisions):
                 i += 1
                 continue
             # leaves that end in return / raise / continue / break never reach b
@@ -577,6 +592,100 @@ def fold_flag_tests(fn: ast.AST) -> int:
         fn.body = [_Drop().visit(s_) for s_ in fn.body]  # type: ignore[attr-defined]
         ast.fix_missing_locations(fn)
     return done
+
+
+# ------------------------------------------------------------------ records
+def scalarise_records(fn: ast.AST, records: Dict[str, List[str]]) -> int:
+    """`v = Rec(a=x, b=e)` with a NEW record class (NamedTuple / dataclass without methods) whose
+    only uses are `v.a` / `v.b`: the record is dissolved into its fields again."""
+    done = 0
+    names = {x.id for x in _walk_scope(fn) if isinstance(x, ast.Name) and
+             isinstance(x.ctx, ast.Store)}
+    for v in sorted(names):
+        stores = [x for x in _walk_scope(fn) if isinstance(x, (ast.Assign, ast.AnnAssign)) and
+                  any(isinstance(t, ast.Name) and t.id == v for t in (
+                      x.targets if isinstance(x, ast.Assign) else [x.target]))]
+        all_stores = [x for x in _walk_scope(fn) if isinstance(x, ast.Name) and x.id == v and
+                      isinstance(x.ctx, (ast.Store, ast.Del))]
+        if len(stores) != len(all_stores) or not stores:
+            continue
+        ctors = [s_ for s_ in stores if isinstance(getattr(s_, "value", None), ast.Call) and
+                 isinstance(s_.value.func, ast.Name) and s_.value.func.id in records]
+        nones = [s_ for s_ in stores if isinstance(getattr(s_, "value", None), ast.Constant) and
+                 s_.value.value is None]
+        if len(ctors) != 1 or len(ctors) + len(nones) != len(stores):
+            continue
+        c = ctors[0].value
+        fields = records[c.func.id]
+        if any(isinstance(a, ast.Starred) for a in c.args) or any(k.arg is None
+                                                                  for k in c.keywords):
+            continue
+        vals: Dict[str, ast.AST] = dict(zip(fields, c.args))
+        for k in c.keywords:
+            vals[k.arg] = k.value  # type: ignore[index]
+        if set(vals) != set(fields):
+            continue
+        loads = [x for x in _walk_scope(fn) if isinstance(x, ast.Name) and x.id == v and
+                 isinstance(x.ctx, ast.Load)]
+        attr_loads = [x for x in _walk_scope(fn) if isinstance(x, ast.Attribute) and isinstance(
+            x.value, ast.Name) and x.value.id == v and isinstance(x.ctx, ast.Load) and
+                      x.attr in fields]
+        if len(loads) != len(attr_loads) or _uses_in_nested(fn, v):
+            continue
+        pre: List[ast.stmt] = []
+        repl: Dict[str, ast.AST] = {}
+        for f_ in fields:
+            e = vals[f_]
+            if isinstance(e, (ast.Name, ast.Constant)):
+                repl[f_] = e
+            else:
+                nm = f"{v}_{f_}"
+                pre.append(ast.copy_location(ast.Assign(
+                    targets=[ast.Name(id=nm, ctx=ast.Store())], value=e), ctors[0]))
+                repl[f_] = ast.Name(id=nm, ctx=ast.Load())
+
+        class _R(ast.NodeTransformer):
+            def visit_Attribute(self, node: ast.Attribute) -> ast.AST:
+                if isinstance(node.value, ast.Name) and node.value.id == v and \
+                        node.attr in repl and isinstance(node.ctx, ast.Load):
+                    return ast.copy_location(copy.deepcopy(repl[node.attr]), node)
+                self.generic_visit(node)
+                return node
+
+            def visit_FunctionDef(self, node):
+                return node
+        drop = {id(s_) for s_ in stores}
+        for block in list(_blocks(fn)):
+            j = 0
+            while j < len(block):
+                if id(block[j]) in drop:
+                    new = pre if block[j] is ctors[0] else []
+                    block[j:j + 1] = new or [ast.Pass()]
+                    j += len(new) or 1
+                    continue
+                j += 1
+        fn.body = [_R().visit(s_) for s_ in fn.body]  # type: ignore[attr-defined]
+        done += 1
+    if done:
+        ast.fix_missing_locations(fn)
+    return done
+
+
+def record_classes(tree: ast.Module, modname: str, ref_functions: Set[str]) -> Dict[str, List[str]]:
+    out: Dict[str, List[str]] = {}
+    for st in tree.body:
+        if not isinstance(st, ast.ClassDef):
+            continue
+        if any(k.startswith(f"{modname}:{st.name}.") for k in ref_functions):
+            continue
+        is_rec = any(ast.unparse(b).split(".")[-1] == "NamedTuple" for b in st.bases) or any(
+            ast.unparse(d).split(".")[-1].split("(")[0] == "dataclass"
+            for d in st.decorator_list)
+        body = _strip_doc(st.body)
+        if is_rec and body and all(isinstance(b, ast.AnnAssign) and isinstance(b.target, ast.Name)
+                                   for b in body):
+            out[st.name] = [b.target.id for b in body]  # type: ignore[union-attr]
+    return out
 
 
 # ------------------------------------------------------------------ table-driven dispatch
@@ -1021,6 +1130,14 @@ class _Helper:
         self.expr = _as_expression(node.body)  # type: ignore[attr-defined]
         self.proc = self.expr is None and _is_procedure(node.body)  # type: ignore[attr-defined]
         self.structured: Optional[List[ast.stmt]] = None
+        # a helper with several returns is folded back as statements where it is called as a
+        # statement (`v = helper(..)`), and as one conditional expression elsewhere
+        if self.expr is not None and sum(1 for x in _walk_scope(node)
+                                         if isinstance(x, ast.Return)) >= 3:
+            st0 = _structure_returns(_strip_doc(node.body))  # type: ignore[attr-defined]
+            if st0 is not None:
+                self.structured = st0
+                self.proc = True
         self.loopconst = False
         self.loopret: Optional[int] = None
         ys = [x for x in _walk_scope(node) if isinstance(x, (ast.Yield, ast.YieldFrom))]
@@ -1919,7 +2036,7 @@ def inline_helpers(tree: ast.Module, modname: str, ref_functions: Set[str]) -> i
                 break
         if n:
             for _r in range(4):
-                if not fold_flag_tests(fn):
+                if not fold_flag_tests(fn) + (scalarise_records(fn, recs) if recs else 0):
                     break
         # drop nested helper definitions that are no longer referenced
         used = {x.id for x in _walk_scope(fn) if isinstance(x, ast.Name) and
@@ -1930,6 +2047,7 @@ def inline_helpers(tree: ast.Module, modname: str, ref_functions: Set[str]) -> i
 
     from .localnames import function_keys
     _fkeys = dict(function_keys(tree, modname))
+    recs = record_classes(tree, modname, ref_functions)
     for key, fn in list(_fkeys.items()):
         if key not in ref_functions:
             continue  # helpers themselves are not rewritten (they may be inlined elsewhere)
